@@ -446,7 +446,7 @@ impl Prop for C05 {
         ]
     }
     fn case_timeout(&self) -> std::time::Duration {
-        std::time::Duration::from_secs(900)
+        std::time::Duration::from_secs(240)
     }
 }
 
@@ -481,7 +481,7 @@ impl Prop for C06 {
         ]
     }
     fn case_timeout(&self) -> std::time::Duration {
-        std::time::Duration::from_secs(900)
+        std::time::Duration::from_secs(240)
     }
 }
 
